@@ -198,6 +198,13 @@ def run(ck, prog, ctx):
                 if writes_field and shared:
                     ck.undecided("DOM", "build_with_defaults/" + nm, "build_with_defaults does not call %s but assigns self.%s from private code that %s uses as well (%s): not compared" % (nm, "/".join(fl_), nm, sorted(prog.bodies[x].short for x in shared)[0]), where=bd.where())
                     continue
+            if not ok and not calls:
+                # ... or re-computed by private Builder code of its own (one pass over the children of the root terms that yields both groups)
+                from engines import private_scope as _psc
+                own_ = [x for x in _psc(prog, bd) if x.id != bd.id and x.kind in ("Fn", "AssocFn") and any((t_.callee.res or "").endswith("HpoTermInternal::children") for fb_ in prog.family(x) for _, t_ in fb_.calls())]
+                if own_:
+                    ck.undecided("DOM", "build_with_defaults/" + nm, "build_with_defaults does not call %s: the default groups are computed by private code of its own (%s), which the rules over %s do not read" % (nm, own_[0].short, nm), where=bd.where())
+                    continue
             ck.ob("DOM", "build_with_defaults/" + nm, ok, "build_with_defaults %s" % ("calls %s and propagates its error" % nm if ok else ("does not call %s" % nm if not calls else "ignores the result of %s" % nm)), where=bd.where())
     # inclusive membership predicates (shared with C14)
     sites = [s for s in membership_sites(prog, pv, Prov(prog, bind_closures=False)) if "HpoTerm::<" in (prog.bodies[s["body"].root].id if s["body"].kind == "Closure" and s["body"].root in prog.bodies else s["body"].id)]
